@@ -125,7 +125,7 @@ package rfc8628
 //@ spec func expired_at(exp time.Time, reqAt time.Time, life time.Duration, now time.Time) bool = exp == 0 ? reqAt + life < now : exp < now
 
 //@ func (*DefaultDeviceStrategy).ValidateDeviceCode
-//@   requires h != nil && r != nil
+//@   requires h != nil && r != nil && h.Enigma != nil
 //@   ensures [C07.device-code-expiry] err == nil ==> $now >= old($now) && !expired_at(r.GetSession().GetExpiresAt(fosite.DeviceCode), r.GetRequestedAt(), h.Config.GetDeviceAndUserCodeLifespan(ctx), $now)
 //@   ensures [C06.device-code-authentic] err == nil ==> authentic(h.Enigma, strings.TrimPrefix(code, "ory_dc_"))
 
@@ -143,7 +143,9 @@ package rfc8628
 //@   ensures [C16.user-code-signed] result2 == nil ==> result1 == hmacstr(h.Enigma, result0) && result1 != ""
 
 //@ func (*DefaultDeviceStrategy).GenerateDeviceCode
-//@   requires h != nil
+//@   requires h != nil && h.Enigma != nil && held[addr(h.Enigma.Mutex)] == 0 && (forall m2 V :: held[m2] != 0 ==> mrank(m2) < mrank(addr(h.Enigma.Mutex)))
+//@   modifies held
+//@   ensures [C19.locks-released] held == old(held)
 //@   ensures [C16.device-code-signed] result2 == nil ==> result1 != "" && result0 != "" && (exists t string :: result0 == "ory_dc_" + t && result1 == hmacsig(t) && authentic(h.Enigma, t))
 
 //@ func (*DefaultDeviceStrategy).DeviceCodeSignature
